@@ -28,9 +28,9 @@ RULE = ('Generated experiment frames in both cost scenarios (fixed: pre-period a
 ASSUMPTIONS = ['tails=1 with level < 0.5 ordering failures are classified under the known-finding key one-sided-level-below-half',
                'variable-cost cases with |incremental cost / its posterior scale| < 8 are skipped (ratio of t variables too heavy-tailed)']
 EXHAUSTIVE = {'quick': False, 'thorough': False}
-MINIMA = {'quick': {'mixed_cost_cases': 100, 'refits': 80, 'fixed_checked': 120, 'variable_checked': 200, 'equivariance_pairs': 400, 'determinism_pairs': 200,
+MINIMA = {'quick': {'fixed_with_cooldown_spend': 15, 'equivariance_extreme_units': 30, 'mixed_cost_cases': 100, 'refits': 80, 'fixed_checked': 120, 'variable_checked': 200, 'equivariance_pairs': 400, 'determinism_pairs': 200,
                     'distinct_nontrivial': 400},
-          'thorough': {'mixed_cost_cases': 1500, 'refits': 1200, 'fixed_checked': 2000, 'variable_checked': 3000, 'equivariance_pairs': 6000, 'determinism_pairs': 3000,
+          'thorough': {'fixed_with_cooldown_spend': 200, 'equivariance_extreme_units': 400, 'mixed_cost_cases': 1500, 'refits': 1200, 'fixed_checked': 2000, 'variable_checked': 3000, 'equivariance_pairs': 6000, 'determinism_pairs': 3000,
                        'distinct_nontrivial': 6000}}
 N = {'quick': 640, 'thorough': 9000}
 NSIMS = {'quick': 2000, 'thorough': 10000}
@@ -60,7 +60,8 @@ def run_case(spec):
   extras = set()
   if r.random() < 0.2:
     extras.add('unassigned_geo')
-  exp = gen.gen_experiment(r, g, extras=extras, cost_mode=scenario, cost_scale=cost_scale,
+  cooldown_spend = r.choice([0.0, 0.0, 0.5, 1.0]) if scenario in ('fixed', 'variable') else 0.0
+  exp = gen.gen_experiment(r, g, extras=extras, cost_mode=scenario, cost_scale=cost_scale, cooldown_spend=cooldown_spend,
                            n_pre=gen.weighted(r, [(3, 0.5), (4, 0.5), (5, 1), (r.randrange(6, 15), 4), (r.randrange(15, 60), 4)]))
   frame = exp['frame']
   if tiny_total:
@@ -78,7 +79,7 @@ def run_case(spec):
   counters = collections.Counter()
   violations = []
   desc = {k: exp[k] for k in ('n_pre', 'n_test', 'n_cool', 'n_ctl', 'n_trt', 'shape', 'extras', 'lift', 'int_dtype')}
-  desc.update(scenario=scenario, use_cooldown=use_cool, level=level, tails=tails, cost_scale=cost_scale, tiny_total=tiny_total)
+  desc.update(cooldown_spend=cooldown_spend, scenario=scenario, use_cooldown=use_cool, level=level, tails=tails, cost_scale=cost_scale, tiny_total=tiny_total)
 
   def add(clause, mech, detail):
     violations.append({'clause': clause, 'mech': mech, 'detail': '%s; case %r' % (detail, desc)})
@@ -141,6 +142,8 @@ def run_case(spec):
   if label == 'fixed' and want_label == 'fixed':
     counters['fixed_checked'] += 1
     cost = float(yc_an.sum())              # counterfactual cost is 0 in the fixed scenario
+    if use_cool and exp['n_cool'] and float(yc_an.sum()) != float(yc_t.sum()):
+      counters['fixed_with_cooldown_spend'] += 1
     loc, sc = float(rr.loc[-1]), float(rr.scale[-1])
     atol = (rt * vol + (1e-9 + rt_sig) * abs(sc * tq)) / abs(cost)
     want = {'estimate': loc / cost, 'lower': (loc + sc * tq) / cost,
@@ -193,6 +196,10 @@ def run_case(spec):
   # ---- scale equivariance
   a = 2.0 ** (r.randrange(0, 6) if tiny_total else r.randrange(-3, 6))
   b = 2.0 ** r.randrange(-3, 8)
+  if r.random() < 0.15:
+    # extreme, opposite units (response in millions of the unit, cost in micro-units): iROAS figures around 1e-18
+    a, b = 2.0 ** r.randrange(20, 31), 2.0 ** -r.randrange(20, 31)
+    counters['equivariance_extreme_units'] += 1
   f2 = frame.copy()
   f2['cost'] = f2['cost'] * a
   f2['response'] = f2['response'] * b
